@@ -44,13 +44,13 @@ VARS = ["V", "W"]
 LEGACY = {"${UPS_PROD_DIR}": "${PRODUCT_DIR}", "${UPS_DB}": "${PRODUCTS}", "${UPS_UPS_DIR}": "${UPS_DIR}",
           "${UPS_PROD_FLAVOR}": "${PRODUCT_FLAVOR}"}
 EPREFS = ["${EUPS_PATH[0]}", "${EUPS_PATH[1]}", "${EUPS_PATH[7]}", "${EUPS_PATH[01]}"]
-MACROS = list(LEGACY) + EPREFS + ["${PRODUCT_DIR}", "$?{PRODUCT_DIR}", "${PRODUCT_DIR_EXTRA}", "$?{PRODUCT_DIR_EXTRA}", "${PRODUCTS}", "${NAME_DIR}",
+MACROS = list(LEGACY) + EPREFS + ["${OTHER_DIR}"] + ["${PRODUCT_DIR}", "$?{PRODUCT_DIR}", "${PRODUCT_DIR_EXTRA}", "$?{PRODUCT_DIR_EXTRA}", "${PRODUCTS}", "${NAME_DIR}",
           "${PRODUCT_FLAVOR}", "${PRODUCT_NAME}", "${PRODUCT_VERSION}", "${UPS_DIR}"]
 
 
 def gen_product(rng):
     """A structured description of the product whose table the actions come from (resolved to real paths at run time)."""
-    return {"name": rng.choice(["prod", "prod", "my-p", "P2x"]), "version": rng.choice(["1.0", "1.0", "v2_3"]),
+    return {"name": rng.choice(["prod", "prod", "my-p", "P2x", "a.b", "c++"]), "version": rng.choice(["1.0", "1.0", "v2_3"]),
             "flavor": rng.choice(["Linux64", "Linux64", "Linux64", None]),
             "dir": rng.choice(["/opt/p/1.0", "/opt/p/1.0", "/opt/p/1.0", "none", None, "$S/local dir"]),
             "db": rng.choice(["stack", "stack", "flat"]),
@@ -58,7 +58,12 @@ def gen_product(rng):
             "eups_path": rng.choice([["$S/st", "/other/stack"], ["$S/st", "/other/stack"], ["/one"], None])}
 
 
+OTHER = {"a.b": "${AXB_DIR}", "c++": "${C_DIR}"}      # the directory variable of *another* product (axb, c)
+
+
 def macro_text(prod, m):
+    if m == "${OTHER_DIR}":
+        return OTHER.get(prod["name"], "${OTHER_DIR}")
     return "${%s_DIR}" % prod["name"].upper() if m == "${NAME_DIR}" else m
 
 
@@ -371,7 +376,7 @@ def run_impl(case):
 def _run_impl(case, e):
     prod = case.get("product")
     clean = ["V", "W", "FOO", "BAR", "PRODUCT_DIR", "PRODUCT_DIR_EXTRA", "PRODUCTS", "UPS_DIR", "PRODUCT_FLAVOR",
-             "PRODUCT_NAME", "PRODUCT_VERSION"] + [n.upper() + "_DIR" for n in ("prod", "my-p", "P2x")]
+             "PRODUCT_NAME", "PRODUCT_VERSION"] + [n.upper() + "_DIR" for n in ("prod", "my-p", "P2x", "a.b", "c++", "axb", "c", "other")]
     for k in clean:
         os.environ.pop(k, None)
     os.environ.update(case["env"])
@@ -474,6 +479,8 @@ def resolve_den(den, info, case, delim):
         return ("unspecified",)
     m, tail = den[1], den[2]
     opt, key = m.startswith("$?"), m.strip("$?{}")
+    if m == "${OTHER_DIR}":     # another product's directory variable: not this table's business, and not defined here
+        return ("error",)
     if m in EPREFS:         # a subscripted reference to $EUPS_PATH: that element; refused when EUPS_PATH is not set
         if info["eupsPath"] is None:
             return ("error",)
